@@ -715,7 +715,17 @@ def c20 (ms : M) (e : Event) (hbAfter : Int) : List String :=
              else ["C20.test_request_not_echoed"]
            | none => [])
         else []
-      arm ++ cancel ++ disturbed ++ echo
+      -- a TestRequest that arrives AHEAD of the expected number is kept for later, not answered now: its answer is due when
+      -- it is processed in sequence (once), so no Heartbeat carrying its id may leave in this event
+      let early :=
+        if kindOf m == "1" && v.clean && stLoggedOn prev.st && (match e.op with | .msgIn _ => true | _ => false) then
+          (match v.seq, fget m.f 112 with
+           | some sq, some id =>
+             if sq > ms.T && ((wires e.items).any fun (k, _, f) => k == "0" && fget f 112 == some id)
+             then ["C20.test_request_answered_out_of_sequence"] else []
+           | _, _ => [])
+        else []
+      arm ++ cancel ++ disturbed ++ echo ++ early
 
 /-! ## C03: the reply to a ResendRequest -/
 
